@@ -86,7 +86,12 @@ func (w *Queue) Enqueue(workToDo Work, options ...workOption) uuid.UUID {
 	w.workItems.Store(wi.id, wi)
 
 	if !w.stopped.Load() {
-		w.workChan <- wi
+		select {
+		case w.workChan <- wi:
+		case <-w.queueContext.Done():
+			// the queue was stopped while waiting for room: the work is not accepted
+			w.workItems.Delete(wi.id)
+		}
 	}
 
 	return wi.id
@@ -165,17 +170,13 @@ func (w *Queue) ResizeQueueLength(length int) {
 }
 
 func (w *Queue) start() {
-	defer func() {
-		close(w.errChan)
-		close(w.workChan)
-		w.queueCancel()
-	}()
+	defer w.queueCancel()
 
 	heap.Init(w.workQueue)
 
 	// monitor for errors on a go routine
+	monitorDone := make(chan struct{})
 	go func() {
-		stop := false
 		for {
 			select {
 			case e := <-w.errChan:
@@ -185,21 +186,21 @@ func (w *Queue) start() {
 				for _, sub := range subscribers {
 					sub <- e
 				}
-			case <-w.queueContext.Done():
-				stop = true
-			}
-			if stop {
-				break
+			case <-monitorDone:
+				return
 			}
 		}
 	}()
 
 	workerSemaphore := make(chan bool, w.workerCount)
 	workerCh := make(chan *workItem, w.workerCount)
-	defer close(workerCh)
-	defer close(workerSemaphore)
+	workers := &sync.WaitGroup{}
 	for i := 0; i < w.workerCount; i++ {
-		go w.doWork(workerCh, workerSemaphore)
+		workers.Add(1)
+		go func() {
+			defer workers.Done()
+			w.doWork(workerCh, workerSemaphore)
+		}()
 	}
 
 	// Process work
@@ -209,6 +210,11 @@ outsideFor:
 		select {
 		case work := <-w.workChan:
 			if work != nil {
+				if w.queueContext.Err() != nil {
+					// stopping: nothing more is dispatched here, the work joins the queue and is dealt with below
+					heap.Push(w.workQueue, work)
+					break outsideFor
+				}
 				// If queue is empty try to send directly to workers via workerCh
 				if w.workQueue.Len() == 0 {
 					select {
@@ -224,7 +230,14 @@ outsideFor:
 				} else {
 					// queue is full, block and wait for worker to finish a task then add work to queue
 					fmt.Println("Waiting for free worker")
-					<-workerSemaphore
+					select {
+					case <-workerSemaphore:
+					case <-w.queueContext.Done():
+					}
+					if w.queueContext.Err() != nil {
+						heap.Push(w.workQueue, work)
+						break outsideFor
+					}
 					w.workQueue.AdjustPriorities()
 					wtemp := heap.Pop(w.workQueue).(*workItem)
 					workerCh <- wtemp
@@ -233,6 +246,9 @@ outsideFor:
 				fmt.Printf("Queue Length %v\n", w.workQueue.Len())
 			}
 		case <-workerSemaphore:
+			if w.queueContext.Err() != nil {
+				break outsideFor
+			}
 			// worker done, pop and start next work (if anything in queue)
 			if w.workQueue.Len() > 0 {
 				w.workQueue.AdjustPriorities()
@@ -244,12 +260,34 @@ outsideFor:
 		}
 	}
 
-	// Finish any work left on queue
+	// Finish any work left on queue, consuming completion tokens so that no worker blocks on a full semaphore
 	for _, work := range w.workQueue.items {
 		if !w.breaked {
-			workerCh <- work
+			for sent := false; !sent; {
+				select {
+				case workerCh <- work:
+					sent = true
+				case <-workerSemaphore:
+				}
+			}
 		}
 	}
+
+	// let the workers finish what they were handed, then retire the error monitor
+	close(workerCh)
+	workersDone := make(chan struct{})
+	go func() {
+		workers.Wait()
+		close(workersDone)
+	}()
+	for finished := false; !finished; {
+		select {
+		case <-workerSemaphore:
+		case <-workersDone:
+			finished = true
+		}
+	}
+	close(monitorDone)
 }
 
 func (w *Queue) doWork(workCh chan *workItem, semaphore chan bool) {
